@@ -143,6 +143,36 @@ def build(spec, initialize=True):
         node = MetricNode(m['name'], direction=m.get('dir'), ref=m.get('ref'))
         nodes[m['name']] = node
         g.add_edge(nodes[m['host']], node)
+    from adsg_core.graph.adsg_nodes import ConnectorNode, ConnectorDegreeGroupingNode
+
+    def mk_conn(c):
+        kw = {}
+        d = c['deg']
+        if isinstance(d, list):
+            kw['deg_list'] = list(d)
+        else:
+            lo, hi = d.split('..')
+            kw['deg_min'] = int(lo)
+            kw['deg_max'] = None if hi == '*' else int(hi)
+        node = ConnectorNode(c['name'], repeated_allowed=bool(c.get('rep')), **kw)
+        nodes[c['name']] = node
+        g.add_edge(nodes[c['host']], node)
+        return node
+
+    for cc in spec.get('conn', []):
+        sides = []
+        for side in ('src', 'tgt'):
+            lst = []
+            for c in cc[side]:
+                if 'group' in c:
+                    grp = ConnectorDegreeGroupingNode(c['group'])
+                    nodes[c['group']] = grp
+                    lst.append((grp, [mk_conn(m) for m in c['members']]))
+                else:
+                    lst.append(mk_conn(c))
+            sides.append(lst)
+        excl = [(nodes[a], nodes[b]) for a, b in cc.get('exclude', [])] or None
+        choices[cc['id']] = g.add_connection_choice(cc['id'], sides[0], sides[1], exclude=excl)
     built = Built(None, nodes, choices, g)
     if initialize:
         built.dsg = g.set_start_nodes({nodes[s] for s in spec['start']})
@@ -165,6 +195,46 @@ def add_dv_metrics(rng, spec, n_dv_max=2, n_metric_max=2):
     for i in range(rng.randint(0, n_metric_max)):
         spec['metrics'].append({'name': f'M{i}', 'host': rng.choice(hosts), 'dir': rng.choice([-1, 1]),
                                 'ref': rng.choice([None, 1.0])})
+    return spec
+
+
+CONN_DEGS = [[1], [1], [0, 1], [1, 2], [0, 1, 2], [2], '0..*', '1..*', '1..2', '0..1', [1, 3]]
+
+
+def add_conn_choice(rng, spec, cid='X0', p_group=0.2, p_cond=0.5, max_side=3):
+    """One connection choice: 1-3 sources and targets hosted on the start node (permanent) or on other named nodes
+    (conditional when the host is); at least one source is permanent so that the choice is always active."""
+    spec = copy.deepcopy(spec)
+    hosts = [h for h in spec['nodes']]
+    start = spec['start'][0]
+    k = len(spec.get('conn', []))
+
+    def conn(name, permanent):
+        d = rng.choice(CONN_DEGS)
+        host = start if permanent or rng.random() > p_cond else rng.choice(hosts)
+        return {'name': name, 'host': host, 'deg': copy.deepcopy(d),
+                'rep': (not isinstance(d, str) or not d.endswith('*')) and rng.random() < 0.3}
+
+    cc = {'id': cid, 'src': [], 'tgt': [], 'exclude': []}
+    ns, nt = rng.randint(1, max_side), rng.randint(1, max_side)
+    for i in range(ns):
+        cc['src'].append(conn(f'S{k}{i}', permanent=(i == 0)))
+    for j in range(nt):
+        if rng.random() < p_group and nt - j >= 1:
+            mem = [conn(f'T{k}{j}a', False), conn(f'T{k}{j}b', False)]
+            if any(isinstance(m['deg'], str) and m['deg'].endswith('*') for m in mem):
+                for m in mem:
+                    m['rep'] = False  # an open-ended group stays non-repeating (no undocumented parallel limit)
+            cc['tgt'].append({'group': f'G{k}{j}', 'members': mem})
+        else:
+            cc['tgt'].append(conn(f'T{k}{j}', permanent=False))
+    flat_s = [c['name'] for c in cc['src']]
+    flat_t = [c.get('name') or c['group'] for c in cc['tgt']]
+    for a in flat_s:
+        for b in flat_t:
+            if rng.random() < 0.1:
+                cc['exclude'].append([a, b])
+    spec.setdefault('conn', []).append(cc)
     return spec
 
 
